@@ -153,8 +153,9 @@ PLAN["C15"] = dict(
 
 PLAN["C07"] = dict(
     level="other",
-    functions=[(GFA, "GFA.write_gfa#L-line-from-start"), (GFA, "GFA.write_gfa#L-line-from-end"), (GFA, "GFA.write_gfa#both-loops"), (GFA, "GFA.add_edge")],
-    explanation="PROVED: both output loops of write_gfa as one fragment (any number of nodes and links): every S line precedes every L line, there is exactly "
+    functions=[(GFA, "GFA.write_gfa#L-line-from-start"), (GFA, "GFA.write_gfa#L-line-from-end"), (GFA, "GFA.write_gfa#both-loops"), (GFA, "GFA.add_edge"), (GFA, "GFA.add_node")],
+    explanation="PROVED: add_node stores every tag of an S line under its name as (type, value), nothing else (a repeated name keeps its last "
+                "occurrence), and links tags under the key of the declaring end (add_edge). Both output loops of write_gfa as one fragment (any number of nodes and links): every S line precedes every L line, there is exactly "
                 "one S line per listed node that exists in the graph, in the listed order (ghost prefix count), carrying that node's id. The L-line emitted by write_gfa for an adjacency entry carries orientation signs that decode through E_DIR (the table "
                 "add_edge uses) to exactly the stored sides, with id, overlap and tags in place (both the start-side and the end-side branch); "
                 "add_edge stores exactly the declared link at both ends. BOUNDED: exactly-once emission per declared link (edge_tags keying), "
@@ -162,6 +163,7 @@ PLAN["C07"] = dict(
     trusted_base=["'\\t'.join / split round trip (assumed)", "Node.to_gfa_line caller view (an S line with the node id second); nodes[k].id == k (representation invariant, precondition)",
                   "exactly-once emission of links, (BO,NO) order of the S lines (sort_bo_no), CSV, tags: BOUNDED stand-in only"],
     mutations=[
+        dict(name="add_node swaps tag type and value", file=GFA, old="                self[node_id].tags[tag[0]] = (tag[1], tag[2])", new="                self[node_id].tags[tag[0]] = (tag[2], tag[1])", expect="add_node", functions=[(GFA, "GFA.add_node")], quick=False),
         dict(name="write_gfa writes an S line after the links of a node", file=GFA, old='            for e in edges:\n                f.write(e + "\\n")\n\n        f.close()', new='            for e in edges:\n                f.write(e + "\\n")\n            f.write(self.nodes[n1].to_gfa_line() + "\\n")\n\n        f.close()', expect="write_gfa#both-loops", functions=[(GFA, "GFA.write_gfa#both-loops")]),
         dict(name="swap sign in one write_gfa branch", file=GFA, old='"\\t".join(["L", str(n1), "-", str(n[0]), "+", overlap] + tags)', new='"\\t".join(["L", str(n1), "-", str(n[0]), "-", overlap] + tags)', expect="write_gfa", functions=[(GFA, "GFA.write_gfa#L-line-from-start")]),
     ],
@@ -407,7 +409,9 @@ PLAN["C12"] = dict(
     explanation="PROVED (glue around the external aligner, for any batch size and CIGAR length): wfa_alignment puts exactly one item per record, carrying "
                 "the record's input counter as priority, then the sentinel; columns 1-9 and 12 are copied; column 10 is the sum of the lengths of the "
                 "'=' runs and column 11 the sum of all run lengths of the aligner's cigartuples (ghost prefix sums); records with more than 60000 read "
-                "bases are re-emitted with their columns and optional fields; every optional field is printed key+value in stored order. ASSUMED, not "
+                "bases are re-emitted with their columns and optional fields; every record of AT MOST 60000 read bases carries the new tallies, keeps every "
+                "optional field in place with only the cg:Z: value replaced by the aligner's CIGAR string (one field added when there was none); "
+                "every optional field is printed key+value in stored order. ASSUMED, not "
                 "proved (external C library pywfa): the returned CIGAR consumes both strings, pairs equal bases under '=' and unequal under 'X', and is "
                 "optimal for the gap-affine penalties; the bounded stand-in validates that on generated reads.",
     trusted_base=["pywfa.WavefrontAligner(ref)(query) returns a valid optimal global alignment (ASSUMED; runtime-validated by the bounded stand-in)",
@@ -415,6 +419,7 @@ PLAN["C12"] = dict(
     not_applicable_clauses=["validity and optimality of the CIGAR computed inside the pywfa C extension"],
     mutations=[
         dict(name="mismatches tallied as matches", file=REALIGN, old="                elif op_type == 8:\n                    mismatch += op_len", new="                elif op_type == 8:\n                    match += op_len", expect="wfa_alignment"),
+        dict(name="records of exactly 60000 bases passed through", file=REALIGN, old="        if gaf_line.query_end - gaf_line.query_start > 60_000:", new="        if gaf_line.query_end - gaf_line.query_start >= 60_000:", expect="wfa_alignment"),
         dict(name="sentinel not sent", file=REALIGN, old="    qu.put(None)  # sentinel for finished process", new="    pass", expect="wfa_alignment"),
     ],
 )
